@@ -445,6 +445,19 @@ theorem C07_wrapOpts_para_placeholder_limit :
       Editor.text = .ok [0x0A, 0x0A, 0x79] :=
   ⟨by decide +kernel, by decide +kernel, BridgeWrap.of_okEq (by decide +kernel)⟩
 
+/-- FINDING D19 (known, not repaired), as a checked fact about the model that the correspondence ties to the
+code: with `PreserveParagraphs` and the line separator `"  "` (two spaces) the placeholder SPACES that stand in
+for the paragraph separator's part on the paragraph's last line are taken for a trailing line separator, and
+the removal by count deletes text: `"ab cd\n\nef gh"` aligned Left to width 3 comes out as `"ab   \n\nef gh"` —
+`cd` is lost.  The same witness is replayed against the real code on every run of `./check C07`
+(`known_findings.json`, entry D19).  The no-loss theorems above therefore cannot be stated for ALL separators;
+they carry their `GoodSep` / vocabulary hypotheses for a reason. -/
+theorem C07_alignOpts_para_D19_counterexample :
+    (Editor.alignOpts cxA (.root [0x61, 0x62, 0x20, 0x63, 0x64, 0x0A, 0x0A, 0x65, 0x66, 0x20, 0x67, 0x68] {}) Gen.alignLeft 3
+        { preservePara := true, lineSep := [0x20, 0x20] }).map Editor.text =
+      .ok [0x61, 0x62, 0x20, 0x20, 0x20, 0x0A, 0x0A, 0x65, 0x66, 0x20, 0x67, 0x68] :=
+  BridgeWrap.of_okEq (by decide +kernel)
+
 end C07_public
 
 end RosedVerif.Props
